@@ -654,6 +654,53 @@ fn oracle_on_return(w: &mut UWorld, opi: usize) -> Option<Violation> {
     let pid = w.sc.profile.clone();
     let max = w.sc.max_size();
     let v = |c: &str, d: String| Some(engine::violation(&pid, c, d));
+    // ---- timeouts (C10, unmanaged half) ---------------------------------------------------
+    if is(w, "C10") {
+        let (t, is_cfg) = match op.op {
+            UOp::Get { .. } | UOp::Remove { .. } => (w.sc.cfg_timeout(), true),
+            UOp::TimeoutGet { t, .. } | UOp::TimeoutRemove { t, .. } => (t, false),
+            _ => (None, false),
+        };
+        let _ = is_cfg;
+        let waits = waiting_kind(&op.op) == Some(true);
+        if waits {
+            match t {
+                Some(0) => {
+                    if op.pendings > 0 {
+                        return v("zero_timeout_never_pending", format!("{:?} with a zero timeout returned Pending {} time(s)", op.op, op.pendings));
+                    }
+                }
+                Some(tms) if w.sc.has_runtime() => {
+                    if res == URes::Err(UErr::Timeout) {
+                        let start = op.wait_start_ms.unwrap_or(op.return_ms.unwrap_or(0));
+                        let now = op.return_ms.unwrap_or(0);
+                        if now < start + tms {
+                            return v("timeout_not_early", format!("Timeout {} ms after the call started waiting, timeout is {} ms", now - start, tms));
+                        }
+                        w.probe("um_timeout_fired");
+                    }
+                    if res == URes::Err(UErr::NoRuntime) {
+                        return v("no_runtime_only_when_missing", "NoRuntimeSpecified although the pool has a runtime".into());
+                    }
+                }
+                Some(_) => {
+                    // non-zero timeout, no runtime
+                    if res != URes::Err(UErr::NoRuntime) && res != URes::Cancelled {
+                        return v("no_runtime_reported", format!("{:?} with a non-zero timeout but no runtime returned {:?}", op.op, res));
+                    }
+                    if op.pendings > 0 {
+                        return v("no_runtime_no_hang", "call with a non-zero timeout but no runtime was left pending".into());
+                    }
+                    w.probe("um_no_runtime_checked");
+                }
+                None => {
+                    if matches!(res, URes::Err(UErr::Timeout) | URes::Err(UErr::NoRuntime)) {
+                        return v("no_timeout_configured", format!("{:?} without timeout returned {:?}", op.op, res));
+                    }
+                }
+            }
+        }
+    }
     // ---- close finality (C12) -----------------------------------------------------------
     if let Some(s) = w.closed_step {
         if is(w, "C12") {
@@ -741,53 +788,6 @@ fn oracle_on_return(w: &mut UWorld, opi: usize) -> Option<Violation> {
                     }
                 }
                 _ => {}
-            }
-        }
-    }
-    // ---- timeouts (C10, unmanaged half) ---------------------------------------------------
-    if is(w, "C10") {
-        let (t, is_cfg) = match op.op {
-            UOp::Get { .. } | UOp::Remove { .. } => (w.sc.cfg_timeout(), true),
-            UOp::TimeoutGet { t, .. } | UOp::TimeoutRemove { t, .. } => (t, false),
-            _ => (None, false),
-        };
-        let _ = is_cfg;
-        let waits = waiting_kind(&op.op) == Some(true);
-        if waits {
-            match t {
-                Some(0) => {
-                    if op.pendings > 0 {
-                        return v("zero_timeout_never_pending", format!("{:?} with a zero timeout returned Pending {} time(s)", op.op, op.pendings));
-                    }
-                }
-                Some(tms) if w.sc.has_runtime() => {
-                    if res == URes::Err(UErr::Timeout) {
-                        let start = op.wait_start_ms.unwrap_or(op.return_ms.unwrap_or(0));
-                        let now = op.return_ms.unwrap_or(0);
-                        if now < start + tms {
-                            return v("timeout_not_early", format!("Timeout {} ms after the call started waiting, timeout is {} ms", now - start, tms));
-                        }
-                        w.probe("um_timeout_fired");
-                    }
-                    if res == URes::Err(UErr::NoRuntime) {
-                        return v("no_runtime_only_when_missing", "NoRuntimeSpecified although the pool has a runtime".into());
-                    }
-                }
-                Some(_) => {
-                    // non-zero timeout, no runtime
-                    if res != URes::Err(UErr::NoRuntime) && res != URes::Cancelled {
-                        return v("no_runtime_reported", format!("{:?} with a non-zero timeout but no runtime returned {:?}", op.op, res));
-                    }
-                    if op.pendings > 0 {
-                        return v("no_runtime_no_hang", "call with a non-zero timeout but no runtime was left pending".into());
-                    }
-                    w.probe("um_no_runtime_checked");
-                }
-                None => {
-                    if matches!(res, URes::Err(UErr::Timeout) | URes::Err(UErr::NoRuntime)) {
-                        return v("no_timeout_configured", format!("{:?} without timeout returned {:?}", op.op, res));
-                    }
-                }
             }
         }
     }
